@@ -227,6 +227,9 @@ func render(sb *strings.Builder, v reflect.Value, d int) {
 	case reflect.Struct:
 		sb.WriteString(v.Type().Name() + "{")
 		for i := 0; i < v.NumField(); i++ {
+			if !v.Type().Field(i).IsExported() {
+				continue // only what is observable through the public API
+			}
 			sb.WriteString(v.Type().Field(i).Name + ":")
 			render(sb, v.Field(i), d+1)
 			sb.WriteString(" ")
